@@ -164,9 +164,9 @@ func cmdRun(args []string) {
 		}
 	}
 	self, _ := os.Executable()
-	// Scenarios run one after the other, each sharded over all workers, and each gets an equal
-	// share of what is left of the budget (a scenario that finishes early leaves its share to the
-	// later ones), so that one expensive scenario cannot starve the others.
+	// Scenarios run one after the other, each sharded over all workers, and each gets a share of
+	// what is left of the budget (a scenario that finishes early leaves its share to the later
+	// ones), so that one expensive scenario cannot starve the others.
 	byScen := map[string][]*unit{}
 	var order []string
 	for _, u := range units {
@@ -180,7 +180,13 @@ func cmdRun(args []string) {
 		if remaining < 0 {
 			remaining = 0
 		}
-		scDeadline := time.Now().Add(remaining / time.Duration(len(order)-si))
+		// (most scenarios finish in well under a second: a scenario may use up to a third of what is
+		// left, and never gets less than the equal share)
+		share := remaining / time.Duration(len(order)-si)
+		if third := remaining / 3; third > share {
+			share = third
+		}
+		scDeadline := time.Now().Add(share)
 		var wg sync.WaitGroup
 		sem := make(chan struct{}, *jobs)
 		for _, u := range byScen[name] {
